@@ -33,6 +33,25 @@ def ctx_part(sc, tier):
     return recs, [(json.loads(recs[ri][0]), e) for ri, k, e, sig in bads], {"model_states": r.distinct, "histories": len(lines)}
 
 
+def part(sc, tier, xid):
+    """The histories of an extension contract as a part of a listed property's check (LevelHook for C03: a LevelHook is a hook;
+    LevelNames for C04: the statement names the text forms of levels). Returns (violations, stats)."""
+    mod, fam, consts, bounds, invs = PARAMS[xid]
+    mdir = sc.sub("tlc-" + xid)
+    copy_specs(FAMILY, mdir)
+    player = go_build("./players/hist", sc.path("histplayer-" + xid))
+    bound = bounds[1] if tier == "thorough" else bounds[0]
+    r = tlc(mdir, mod, (consts % bound if "%d" in consts else consts) + "SPECIFICATION Spec\nCHECK_DEADLOCK FALSE\nINVARIANTS %s\n" % invs, workers=4, timeout=900)
+    if not r.completed:
+        raise Inconclusive("%s: %s" % (mod, r.out[-1500:]))
+    lines = [json.dumps({"fam": fam, "conf": "", "ops": [json.loads(x[2])], "id": "%s-%d" % (fam, i)}) for i, x in enumerate(r.prints("HIST"))]
+    if not lines:
+        raise Inconclusive("%s exported no history" % mod)
+    recs = run_player(player, sc, "ext-" + xid, lines, shards=1)
+    bads = validate_sharded(sc.dir, "AuxTrace", "hist.ndjson", [rr for _, rr in recs], 1, FAMILY)
+    return [(json.loads(recs[ri][0]), e) for ri, k, e, sig in bads], {"model_states": r.distinct, "histories": len(lines), "spec": "spec/aux/%s.tla" % mod}
+
+
 def check(pid, tier, seed, replay=None):
     t0 = time.time()
     mod, fam, consts, bounds, invs = PARAMS[pid]
